@@ -242,7 +242,12 @@ func genLayoutTree(rng *Rng, odd int) JObj {
 		id := genHex(rng, 64)
 		l = l.Set("intermediatecas", O(id, genKeyTree(rng, id)))
 	}
-	l = l.Set("expires", rng.Pick([]string{"2030-01-02T03:04:05Z", "2020-11-18T16:06:36Z", "2099-12-31T23:59:59Z", genStr(rng, odd)}))
+	// expiry strings: the one accepted form, forms of neighbouring date layouts (RFC 3339 offsets,
+	// no zone, blank instead of T, lower-case z), forms Go accepts beyond the layout string
+	// (1-digit hour, fraction), impossible dates (seeded change c12-validator-rfc3339-expiry)
+	l = l.Set("expires", rng.Pick([]string{"2030-01-02T03:04:05Z", "2020-11-18T16:06:36Z", "2099-12-31T23:59:59Z", genStr(rng, odd),
+		"2030-01-01T00:00:00+01:00", "2030-01-01T00:00:00-00:00", "2030-01-01T00:00:00+05:30", "2030-01-01T00:00:00", "2030-01-01 00:00:00Z",
+		"2030-01-01T00:00:00z", "2030-01-01T3:04:05Z", "2030-01-01T03:04:05.5Z", "2030-02-30T00:00:00Z", "2030-01-01"}))
 	l = l.Set("readme", genStr(rng, odd))
 	return l
 }
